@@ -174,7 +174,13 @@ func misuses() []misuse {
 	return out
 }
 
-var misusePlacements = []string{"top", "nested", "service-less-file", "imported-used", "helpers-other-file", "helpers-imported"}
+var misusePlacements = []string{"top", "nested", "service-less-file", "imported-used", "helpers-other-file", "helpers-imported", "via-public-import"}
+
+// umbrellaFile re-exports the sebuf annotation files with `import public`: a definition that imports
+// only the umbrella uses the annotations exactly as if it imported them itself.
+func umbrellaFile(path string) *spec.File {
+	return &spec.File{Path: path, Package: "c12.umbrella", GoImport: "lab/gen/c12umbrella", GoName: "c12umbrella", Public: []string{spec.AnnotationsPath, spec.HeadersPath}}
+}
 
 // c12: misused annotations stop generation; valid definitions are never refused.
 func c12(c *Ctx) {
@@ -258,6 +264,12 @@ func c12(c *Ctx) {
 					f.Services = append(v.Services, f.Services...)
 				}
 				run(fmt.Sprintf("misuse/%s/service/%s", m.Rule, sur), []*spec.File{f}, nil, offenders, false, false)
+				if sur == "none" {
+					g := f.Clone()
+					um := umbrellaFile(fmt.Sprintf("c12/s%02d/options.proto", i))
+					g.Via = um.Path
+					run(fmt.Sprintf("misuse/%s/service/via-public-import", m.Rule), []*spec.File{um, g}, []string{g.Path}, offenders, false, false)
+				}
 			}
 			continue
 		}
@@ -279,6 +291,13 @@ func c12(c *Ctx) {
 					mainF.Messages = append(mainF.Messages, msgs...)
 					mainF.Enums = append(mainF.Enums, enums...)
 					run(caseID, []*spec.File{mainF}, nil, offenders, m.Client, false)
+				case "via-public-import":
+					// as "top", but the file reaches the annotations through an umbrella file's public import
+					um := umbrellaFile(fmt.Sprintf("c12/m%02d/options.proto", i))
+					mainF.Via = um.Path
+					mainF.Messages = append(mainF.Messages, msgs...)
+					mainF.Enums = append(mainF.Enums, enums...)
+					run(caseID, []*spec.File{um, mainF}, []string{mainF.Path}, offenders, m.Client, false)
 				case "nested":
 					// the offending message (and its helpers) nested inside a wrapper message
 					wrapPkg := pkg
@@ -354,6 +373,34 @@ func c12(c *Ctx) {
 			if err != nil {
 				c.R.Harness("valid corpus does not link: " + f.ID + ": " + err.Error())
 				continue
+			}
+			if withSvc && (c.Thorough() || (i+int(c.Seed))%3 == 0) {
+				// the same definition reaching the annotations through an umbrella file's public import
+				g := fp.File.Clone()
+				um := umbrellaFile("c12v/options.proto")
+				g.Via = um.Path
+				if vreq, err := spec.Request([]*spec.File{um, g}, []string{g.Path}, ""); err != nil {
+					c.R.Harness("valid corpus (public import) does not link: " + f.ID + ": " + err.Error())
+				} else {
+					for _, p := range plugin.Sebuf {
+						caseID := fmt.Sprintf("accept/%s/via-public-import/%s", f.ID, p)
+						if !c.Want(caseID) {
+							continue
+						}
+						res := c.TB.Run(p, vreq, plugin.RunOpt{})
+						c.R.Eval(1)
+						rp := map[string]any{"protos": []string{um.Proto(), g.Proto()}, "plugin": p, "error": res.Error, "stderr": res.Stderr}
+						switch {
+						case res.Crash != "":
+							c.R.Violate(caseID, "crash", res.Crash, rp)
+						case res.HasError:
+							c.R.Violate(caseID, "refused-valid", res.Error, rp)
+						default:
+							c.R.Decided(caseID)
+							c.R.Count("acceptances_observed", 1)
+						}
+					}
+				}
 			}
 			for _, p := range plugin.Sebuf {
 				caseID := fmt.Sprintf("accept/%s/svc=%v/%s", f.ID, withSvc, p)
